@@ -660,7 +660,8 @@ def run_cases(ctx, real, cases):
                                   {"kind": "create", **case_json(c)})
                     bad_cases.add(id(c))
                 sized = {d[2] for d in dyn}
-                if not sized <= set(names) or len(sized) != len(dyn):
+                excused = c.uid[0] == "const" and c.sid[0] != "ctr" and not unique_paths(c.top)
+                if not sized <= set(names) or (len(sized) != len(dyn) and not excused):
                     ctx.violation("C12:size-symbol-not-in-calldata", f"a dyn_params size symbol does not occur in the calldata for {sig}",
                                   {"kind": "create", **case_json(c)})
                     bad_cases.add(id(c))
@@ -671,6 +672,10 @@ def run_cases(ctx, real, cases):
                     mismatches.append((c, "model-error", rep, c.real[1:4]))
             else:
                 ctx.count(f"result:{c.real[1]}")
+                # every generated signature is built from supported types and non-empty candidate lists
+                ctx.violation(f"C12:supported-signature-rejected:{c.real[1]}",
+                              f"mk_calldata raises {c.real[1]} for f{sig} cfg={c.cfg}", {"kind": "create", **case_json(c)})
+                bad_cases.add(id(c))
                 if rep.get("err") != c.real[1]:
                     mismatches.append((c, "error-kind", rep, c.real))
         else:
@@ -848,7 +853,7 @@ def offsets_of(items):
 
 def check_branching(ctx, real, g):
     r = ctx.rng
-    n = ctx.scale(14, 150)
+    n = ctx.scale(40, 400)
     for _ in range(n):
         # a function with a few dynamic parameters
         k = r.randint(1, 3)
@@ -860,7 +865,13 @@ def check_branching(ctx, real, g):
             if t != "uint8" and r.random() < 0.5:
                 cfg["al"][nm] = g.cand(t.endswith("[]"))
         # first pass to learn the layout
-        _, items, dyn = branch_run(real, inputs, cfg, [])
+        try:
+            _, items, dyn = branch_run(real, inputs, cfg, [])
+        except ValueError as e:
+            ctx.count("branch:mk_calldata-raised")
+            ctx.violation("C12:supported-signature-rejected:valueError", f"mk_calldata raises {type(e).__name__} for {inputs} cfg={cfg}",
+                          {"kind": "branch", "inputs": inputs, "cfg": cfg, "scenario": "layout"})
+            continue
         offs = offsets_of(items)
         size_syms = [d for d in dyn]
         if not size_syms:
@@ -941,11 +952,11 @@ def correspond(ctx):
             if leaves_estimate(top, cfg)[0] <= 400:
                 cases.append(mk_case(top, cfg, ["ctr"], ["none"], "12345678", "small-scope"))
     # random trees
-    n = ctx.scale(400, 20000)
+    n = ctx.scale(800, 20000)
     made = 0
     while made < n:
         dup = r.random() < 0.15
-        arity = r.choice([0, 1, 1, 2, 2, 3, 3, 4]) if made % 40 else 0
+        arity = r.choice([1, 1, 2, 2, 3, 3, 4]) if made % 40 else 0
         top = ("tuple", list(zip(g.names(arity, dup), [g.ty(r.choice([0, 1, 2, 3, 3]), dup) for _ in range(arity)])))
         for _ in range(3):
             cfg = gen_cfg(g, top)
@@ -983,18 +994,22 @@ def correspond(ctx):
 def check_zero_fixed(ctx, real):
     """T[0] with dynamic T: the specification makes it dynamic (head = offset); halmos emits nothing for it"""
     cfg = {"al": {}, "da": [1], "db": [32]}
+    reqs, plan = [], []
+    val = ["l", [["l", []], ["u", "7"]]]
     for t in (("farr", "bytes", 0), ("farr", ("darr", ("uint", 256)), 0)):
         top = ("tuple", [("x", t), ("y", ("uint", 256))])
         c = mk_case(top, cfg, ["ctr"], ["none"], "01020304", "zero-fixed")
         res = real.create([abi_item(n, tt) for n, tt in top[1]], cfg, c.selector, c.uid, c.sid)
-        val = ["l", [["l", []], ["u", "7"]]]
         env = {("y", "uint256"): (7).to_bytes(32, "big")}
         ctx.case(("zero-fixed", sig_of(top)))
         ctx.count("zero-fixed-array-of-dynamic")
         if res[0] != "ok":
             continue
-        data, problems = instantiate(ctx.rng, res[1], res[2], env)
-        rep = json.loads(ctx.lean("Abi").ask([json.dumps({"op": "spec", "ty": spec_ty(top), "val": val, "hex": data[4:].hex()})])[0])
+        data, _ = instantiate(ctx.rng, res[1], res[2], env)
+        plan.append((top, c, data))
+        reqs.append(json.dumps({"op": "spec", "ty": spec_ty(top), "val": val, "hex": data[4:].hex()}))
+    for (top, c, data), rep in zip(plan, ctx.lean("Abi").ask(reqs)):
+        rep = json.loads(rep)
         if rep["dec_hex"] != val:
             ctx.violation("C12:zero-length-fixed-array-of-dynamic-type-encoded-as-static",
                           f"f{sig_of(top)}: ABI spec makes T[0] with dynamic T a dynamic type (32-byte offset in the head); halmos "
